@@ -106,6 +106,30 @@ const MUXES_R1: [&str; 2] = ["Require", "Negotiate"];
 const ICE_WEBRTC_R1: [&str; 5] = ["full", "lite-ans", "tcp", "tcp-only", "udpmux-ans"];
 const ICE_DIRECT_R1: [&str; 2] = ["none", "lite-ans"];
 
+/// Per-endpoint ICE profiles for the "pair" region: each END gets its own profile, so that
+/// asymmetric combinations (the shared UDP socket on one end and ICE-TCP only on the other, ...)
+/// are lattice points too. A pair is compatible when the two ends share a transport: a tcp-only
+/// end needs a peer with ICE-TCP.
+const ICE_PROFILES: [&str; 5] = ["plain", "mux", "udp+tcp", "tcp-only", "mux+tcp"];
+const ICE_PAIRS: [&str; 21] = [
+    "pair:plain|plain", "pair:plain|mux", "pair:plain|udp+tcp", "pair:plain|mux+tcp",
+    "pair:mux|plain", "pair:mux|mux", "pair:mux|udp+tcp", "pair:mux|mux+tcp",
+    "pair:udp+tcp|plain", "pair:udp+tcp|mux", "pair:udp+tcp|udp+tcp", "pair:udp+tcp|mux+tcp", "pair:udp+tcp|tcp-only",
+    "pair:mux+tcp|plain", "pair:mux+tcp|mux", "pair:mux+tcp|udp+tcp", "pair:mux+tcp|mux+tcp", "pair:mux+tcp|tcp-only",
+    "pair:tcp-only|udp+tcp", "pair:tcp-only|mux+tcp", "pair:tcp-only|tcp-only",
+];
+/// (offerer's profile, answerer's profile) of a pair value
+fn pair_profiles(ice: &str) -> Option<(&str, &str)> {
+    ice.strip_prefix("pair:").and_then(|x| x.split_once('|'))
+}
+fn pair_port(profile: &str, ip: &str) -> u16 {
+    match profile {
+        "mux" | "mux+tcp" => free_udp_port(ip),
+        "tcp-only" => free_tcp_port(ip),
+        _ => 0,
+    }
+}
+
 fn intern(s: &str) -> Option<&'static str> {
     let all: Vec<&'static str> = MODES
         .iter()
@@ -115,6 +139,7 @@ fn intern(s: &str) -> Option<&'static str> {
         .chain(ICE_WEBRTC.iter())
         .chain(ICE_DIRECT.iter())
         .chain(ICE_RELAY.iter())
+        .chain(ICE_PAIRS.iter())
         .chain(LATCHES.iter())
         .chain(COMPATS.iter())
         .chain(OFFERERS.iter())
@@ -189,7 +214,7 @@ impl Point {
         if d && (self.has_dc() || self.cand != "na" || !ICE_DIRECT.contains(&self.ice) || self.latch == "na") {
             return false;
         }
-        if !d && (self.latch != "na" || self.cand == "na" || !(ICE_WEBRTC.contains(&self.ice) || ICE_RELAY.contains(&self.ice))) {
+        if !d && (self.latch != "na" || self.cand == "na" || !(ICE_WEBRTC.contains(&self.ice) || ICE_RELAY.contains(&self.ice) || ICE_PAIRS.contains(&self.ice))) {
             return false;
         }
         if self.has_dc() != (self.dcs != "na") {
@@ -404,6 +429,26 @@ fn lattice(tier: Tier) -> Lattice {
         }
         *regions.entry("concurrent traffic: every ICE variant x offerer; ICE full/none x address family, x channel variant (richest media mix)").or_default() += r3;
     }
+    // per-endpoint ICE profile pairs (both tiers): every compatible (offerer profile, answerer
+    // profile) x which end offers x traffic; thorough also x media and address family
+    {
+        let medias: &[&'static str] = if tier == Tier::Thorough { &["dc", "dc+audio+video"] } else { &["dc+audio+video"] };
+        let ips: &[&'static str] = if tier == Tier::Thorough { &["v4", "v6"] } else { &["v4"] };
+        for i in ICE_PAIRS {
+            for o in OFFERERS {
+                for m in medias {
+                    for ip in ips {
+                        for tr in TRAFFICS {
+                            let p = Point { mode: "WebRtc", media: m, bundle: "Balanced", mux: "Require", ice: i, latch: "na", compat: "Standard", offerer: o, cand: "sdp", ip, dcs: "inband", traffic: tr };
+                            if set.insert(p) {
+                                *regions.entry("per-endpoint ICE profile pairs (21 compatible pairs of {plain, mux, udp+tcp, tcp-only, mux+tcp}) x offerer x traffic").or_default() += 1;
+                            }
+                        }
+                    }
+                }
+            }
+        }
+    }
     if tier == Tier::Thorough {
         // TURN relay region: ice_transport_policy = Relay on one side, in-process TURN server.
         for m in ["dc", "dc+audio+video"] {
@@ -513,6 +558,22 @@ fn make_cfg(p: &Point, answerer: bool, mux_port: u16, turn: Option<&IceServer>) 
             if answerer {
                 c.ice_udp_mux = true;
                 c.ice_udp_mux_port = Some(mux_port);
+            }
+        }
+        x if x.starts_with("pair:") => {
+            let (off, ans) = pair_profiles(x).unwrap_or(("plain", "plain"));
+            let mine = if answerer { ans } else { off };
+            if mine.contains("tcp") {
+                c.ice_tcp_policy = IceTcpPolicy::Enabled;
+            }
+            if mine.starts_with("mux") {
+                c.ice_udp_mux = true;
+                c.ice_udp_mux_port = Some(mux_port);
+            }
+            if mine == "tcp-only" {
+                c.ice_gather_udp_hosts = false;
+                c.tcp_port_range_start = Some(mux_port);
+                c.tcp_port_range_end = Some(mux_port.saturating_add(2));
             }
         }
         "relay-off" | "relay-ans" => {
@@ -963,11 +1024,19 @@ async fn run_point_async(p: Point, t: Timeouts) -> Outcome {
     };
     let a_offers = p.offerer == "A";
     let ts = turn_h.as_ref().map(|h| &h.server);
-    let a = match build_endpoint("A", &p, make_cfg(&p, !a_offers, mux_port, ts), !a_offers) {
+    // the pair region gives each end its own port (shared UDP socket or TCP listener range)
+    let (port_a, port_b) = match pair_profiles(p.ice) {
+        Some((off, ans)) => {
+            let (pa, pb) = if a_offers { (off, ans) } else { (ans, off) };
+            (pair_port(pa, loopback(&p)), pair_port(pb, loopback(&p)))
+        }
+        None => (mux_port, mux_port),
+    };
+    let a = match build_endpoint("A", &p, make_cfg(&p, !a_offers, port_a, ts), !a_offers) {
         Ok(e) => e,
         Err(e) => return fail(out, "setup", e, t0),
     };
-    let b = match build_endpoint("B", &p, make_cfg(&p, a_offers, mux_port, ts), a_offers) {
+    let b = match build_endpoint("B", &p, make_cfg(&p, a_offers, port_b, ts), a_offers) {
         Ok(e) => e,
         Err(e) => return fail(out, "setup", e, t0),
     };
